@@ -78,6 +78,32 @@ def main(argv):
             print(json.dumps(tr, indent=1))
         return 0
 
+    if cmd == "survey":
+        # ./check survey <ID> [n]: signature histogram over the first n runs (no shrinking, no stop)
+        from collections import Counter
+        from concurrent.futures import ProcessPoolExecutor
+        from multiprocessing import get_context
+
+        pid = argv[1].upper()
+        n = int(argv[2]) if len(argv) > 2 else 2000
+        base = int(os.environ.get("VERIF_SEED", "0"))
+        jobs = int(os.environ.get("VERIF_JOBS", "16"))
+        step = 25
+        hist, first = Counter(), {}
+        with ProcessPoolExecutor(max_workers=jobs, mp_context=get_context("fork"),
+                                 initializer=runner._worker_init) as pool:
+            futs = [pool.submit(runner._work, pid, base, a, min(a + step, n), 0) for a in range(0, n, step)]
+            for f in futs:
+                for rec in f.result():
+                    key = rec.get("sig") if rec.get("status") == "violation" else rec.get("status")
+                    if rec.get("status") == "harness":
+                        key = "harness:" + rec.get("error", "")[-300:]
+                    hist[key] += 1
+                    first.setdefault(key, rec["i"])
+        for k, v in hist.most_common():
+            print(f"{v:6d}  first@{first[k]:<6d} {k}")
+        return 0
+
     if cmd == "find":
         # ./check find <ID> <signature substring> [max index]: first run whose violation signature
         # contains the substring; shrinks it and writes a replay file (used to produce reproducers)
